@@ -285,6 +285,9 @@ func (x *Exec) bindResults(ce *CEnv, sig *types.Signature, res *Val) {
 
 // invoke models an interface method call.
 func (x *Exec) invoke(bc *blockCtx, in ssa.Instruction, recv *Val, m *types.Func, args []*Val, resT *types.Tuple) *Val {
+	if f, rv := x.devirt(recv, m.Name()); f != nil {
+		return x.callStatic(bc, in, f, nil, append([]*Val{rv}, args...))
+	}
 	key := normalizeFuncName(m.FullName())
 	ic, mc := x.prog.ifaceMethod(m)
 	pure := ic != nil && ic.isPureMethod(m.Name())
@@ -765,4 +768,46 @@ func (x *Exec) applyFuncValue(ft *smt.Term, sig *types.Signature, args []*Val) *
 		r.Tup = append(r.Tup, mk(i, res.At(i).Type()))
 	}
 	return r
+}
+
+// devirt resolves a method call on an interface value whose dynamic type is
+// syntactically known (mk_iface with a literal tag).
+func (x *Exec) devirt(recv *Val, name string) (*ssa.Function, *Val) {
+	if recv.T == nil || recv.T.Op != "mk_iface" || recv.T.Args[0].IntV == nil {
+		return nil, nil
+	}
+	t := x.so.tagTypes[int(recv.T.Args[0].IntV.Int64())]
+	if t == nil {
+		return nil, nil
+	}
+	ms := x.prog.SSA.MethodSets.MethodSet(t)
+	var sel *types.Selection
+	for i := 0; i < ms.Len(); i++ {
+		if ms.At(i).Obj().Name() == name {
+			sel = ms.At(i)
+			break
+		}
+	}
+	if sel == nil {
+		return nil, nil
+	}
+	f := x.prog.SSA.MethodValue(sel)
+	if f == nil {
+		return nil, nil
+	}
+	var rv *Val
+	if _, isPtr := t.Underlying().(*types.Pointer); isPtr {
+		rv = &Val{Typ: t, T: recv.T.Args[1]}
+	} else {
+		s := x.so.SortOf(t)
+		unbox := "unbox_" + smt.Sanitize(s)
+		ref := recv.T.Args[1]
+		if ref.Op == "box_"+smt.Sanitize(s) && len(ref.Args) == 1 {
+			rv = &Val{Typ: t, T: ref.Args[0]}
+		} else {
+			x.declareUF(unbox, []string{"Int"}, s)
+			rv = &Val{Typ: t, T: x.b.App(unbox, s, ref)}
+		}
+	}
+	return f, rv
 }
